@@ -1261,6 +1261,10 @@ class ReadParquetFSSpec(ReadParquet):
         return dataset_info
 
     def _filtered_task(self, index: int):
+        if self._plan["empty"]:
+            # The plan is cached per dataset and shared between projections of
+            # the same read, so the empty partition must be this expression's meta
+            return (identity, self._meta)
         tsk = (self._io_func, self._plan["parts"][index])
         if self._series:
             return (operator.getitem, tsk, self.columns[0])
@@ -1306,9 +1310,10 @@ class ReadParquetFSSpec(ReadParquet):
 
             empty = False
             if len(divisions) < 2:
-                # empty dataframe - just use meta
+                # empty dataframe - a single partition holding just the meta
+                # (see _filtered_task)
                 divisions = (None, None)
-                parts = [self._meta]
+                parts = [None]
                 empty = True
 
             _control_cached_plan(dataset_token)
